@@ -218,9 +218,22 @@ def check(ctx: Ctx) -> None:
         # pre-allocated form: out[:, :cp] = prefix ; out[:, cp:] = body
         sts = [n for n in walk_no_nested(add.node) if isinstance(n, ast.Assign) and isinstance(n.targets[0], ast.Subscript)
                and isinstance(n.targets[0].value, ast.Name)]
-        head = [n for n in sts if norm(n.targets[0].slice).replace(' ', '').strip('()') == ':,:self.cp_size']
-        tail = [n for n in sts if norm(n.targets[0].slice).replace(' ', '').strip('()') == ':,self.cp_size:']
-        if len(head) == 1 and len(tail) == 1 and norm(head[0].targets[0].value) == norm(tail[0].targets[0].value):
+        # the two column ranges [:, :B] and [:, B:] with one boundary expression B (cp_size, or the width of the prefix: a wrong B
+        # cannot go unnoticed, the slice store would not broadcast)
+        def col_bound(n, upper: bool):
+            sl = n.targets[0].slice
+            if isinstance(sl, ast.Tuple) and len(sl.elts) == 2 and isinstance(sl.elts[0], ast.Slice) and isinstance(sl.elts[1], ast.Slice) \
+                    and sl.elts[0].lower is None and sl.elts[0].upper is None and sl.elts[1].step is None:
+                c = sl.elts[1]
+                if upper and c.lower is None and c.upper is not None:
+                    return norm(c.upper)
+                if not upper and c.upper is None and c.lower is not None:
+                    return norm(c.lower)
+            return None
+        head = [n for n in sts if col_bound(n, True) is not None]
+        tail = [n for n in sts if col_bound(n, False) is not None]
+        if len(head) == 1 and len(tail) == 1 and norm(head[0].targets[0].value) == norm(tail[0].targets[0].value) \
+                and col_bound(head[0], True) == col_bound(tail[0], False):
             parts = [head[0].value, tail[0].value]
             hs = [head[0]]
     if parts is None or len(parts) != 2:
